@@ -2,6 +2,7 @@ package rules
 
 import (
 	"fmt"
+	"sort"
 	"strings"
 
 	"dtcheck/internal/core"
@@ -27,6 +28,27 @@ func c18Counter(r *R) {
 		ps, _ := r.p.Paths(nx)
 		r.c.Check(len(ps) == 1 && ps[0].RetDesc(0) == "sync/atomic.AddUint64(tc.counter,1:uint64)", "C18.1", "next", r.p.Pos(nx.Pos()), "returns atomic.AddUint64(&counter, 1)", "timeCounter.next does not return the result of an atomic add of 1 to the counter")
 	}
+	// every atomic operation on the counter is the add of 1 (or a load): ids never go back
+	nOps := 0
+	for _, fn := range r.p.Prod {
+		for _, ci := range core.CallSites(fn) {
+			sc := ci.Common().StaticCallee()
+			if sc == nil || sc.Pkg == nil || sc.Pkg.Pkg.Path() != "sync/atomic" || len(ci.Common().Args) == 0 {
+				continue
+			}
+			fa, ok := ci.Common().Args[0].(*ssa.FieldAddr)
+			if !ok {
+				continue
+			}
+			if o, f := core.FieldOwner(fa); o != "impl.timeCounter" || f != "counter" {
+				continue
+			}
+			nOps++
+			okOp := strings.HasPrefix(sc.Name(), "Load") || (sc.Name() == "AddUint64" && r.d.Of(ci.Common().Args[1]) == "1:uint64")
+			r.c.Check(okOp, "C18.1", fmt.Sprintf("counter-op:%s#%d", core.ShortFn(fn), nOps), r.p.InstrPos(ci), "the counter only moves forward by one", "the id counter is modified by "+sc.Name()+"("+r.d.Of(ci.Common().Args[len(ci.Common().Args)-1])+") in "+core.ShortFn(fn)+": an id can be issued twice")
+		}
+	}
+	r.c.Floor("C18.1", nOps, 1, "atomic operations on the id counter")
 	nc := r.fn("C18.1", "impl", "", "newTimeCounter")
 	if nc != nil {
 		ok := false
@@ -102,6 +124,23 @@ func c18Create(r *R) {
 				}
 			}
 			r.c.Floor("C18.3", n, 2, "paths of CreateNew")
+			// before Begin has accepted the id nothing that belongs to the Channels object is
+			// touched: a refused creation must leave the existing channel's in-memory state alone too
+			var early []string
+			for _, pt := range r.pathsOf("C18.3", fn) {
+				for _, ev := range pt.Evs {
+					if ev.Instr == bg.(ssa.Instruction) {
+						break
+					}
+					if recv := pt.ArgDesc(ev, -1); ev.C.IsInvoke() || ev.C.StaticCallee() != nil && ev.C.StaticCallee().Signature.Recv() != nil {
+						if recv == "c" || strings.HasPrefix(recv, "c.") {
+							early = append(early, r.p.CalleeName(ev.C))
+						}
+					}
+				}
+			}
+			sort.Strings(early)
+			r.c.Check(len(early) == 0, "C18.3", "CreateNew/nothing-before-Begin", r.p.Pos(fn.Pos()), "no state of the Channels object is touched before Begin accepted the id", "CreateNew calls "+strings.Join(early, ", ")+" before Begin has accepted the id: a refused duplicate creation disturbs the existing channel")
 			// identifier passed to Begin is that id
 			id := r.d.Of(core.Arg(bg.Common(), 0))
 			r.c.Check(strings.Contains(id, "ID:tid") && strings.Contains(id, "Initiator:initiator"), "C18.3", "Begin/identifier", r.p.InstrPos(bg), "begun under the channel id", "the state machine is begun under "+id)
